@@ -277,3 +277,59 @@ Qed.
 Definition ch : list modl := [mkMod "a" [("f", MImport "f" "m.f")] []; ex_m].
 Example chain_example : resolve_import ex_locator no no no true false false 5 ch "f" "a.f" = RTarget "m" "f" false.
 Proof. reflexivity. Qed.
+
+(* ================= termination of the import BFS =================
+   With a finite universe U of origins and at most B imports per module, the BFS ends within
+   |queue| + |U| * B + 1 steps: the fuel bound is never the reason for stopping. *)
+Section Termination.
+  Variable module_of : string -> option string.
+  Variable origin_of : string -> option string.
+  Variable blacklisted in_pip in_stdlib : string -> bool.
+  Variable follow_pip follow_stdlib : bool.
+  Variable imports_in : string -> list (string * string).
+  Variable U : list string.
+  Variable B : nat.
+  Hypothesis origins_in_U : forall q mn o, module_of q = Some mn -> origin_of mn = Some o -> In o U.
+  Hypothesis imports_bounded : forall o, List.length (imports_in o) <= B.
+
+  Notation bfs := (bfs module_of origin_of blacklisted in_pip in_stdlib follow_pip follow_stdlib imports_in).
+
+  Definition unseen (seen : list string) : nat := List.length (filter (fun o => negb (mem o seen)) U).
+
+  Lemma filter_len_le (l : list string) (f g : string -> bool) :
+    (forall x, g x = true -> f x = true) -> List.length (filter g l) <= List.length (filter f l).
+  Proof.
+    intros H. induction l as [|x l IH]; simpl; [lia|].
+    destruct (g x) eqn:Eg; [rewrite (H x Eg); simpl; lia|destruct (f x); simpl; lia].
+  Qed.
+
+  Lemma filter_len_lt (l : list string) (f g : string -> bool) o :
+    (forall x, g x = true -> f x = true) -> In o l -> f o = true -> g o = false ->
+    List.length (filter g l) < List.length (filter f l).
+  Proof.
+    intros H Hin Hf Hg. induction l as [|x l IH]; [destruct Hin|]. simpl. destruct Hin as [->|Hin].
+    - rewrite Hf, Hg. simpl. pose proof (filter_len_le l f g H). lia.
+    - specialize (IH Hin). destruct (g x) eqn:Eg; [rewrite (H x Eg); simpl; lia|destruct (f x); simpl; lia].
+  Qed.
+
+  Lemma unseen_decreases o seen : In o U -> mem o seen = false -> unseen (o :: seen) < unseen seen.
+  Proof.
+    intros Hin Hm. unfold unseen. apply (filter_len_lt U _ _ o); auto.
+    - intros x Hx. simpl in Hx. destruct (String.eqb x o); [discriminate|exact Hx].
+    - rewrite Hm. reflexivity.
+    - simpl. rewrite String.eqb_refl. reflexivity.
+  Qed.
+
+  Theorem bfs_terminates fuel : forall queue seen acc,
+    List.length queue + unseen seen * B + 1 <= fuel -> bfs fuel queue seen acc <> None.
+  Proof.
+    induction fuel as [|f IH]; intros queue seen acc Hf; [lia|].
+    destruct queue as [|[n q] rest]; simpl; [discriminate|]. simpl in Hf.
+    destruct (module_of q) as [mn|] eqn:Em; [|apply IH; lia].
+    destruct (origin_of mn) as [o|] eqn:Eo; [|apply IH; lia].
+    destruct (mem o seen) eqn:Es; [apply IH; lia|].
+    destruct (permitted blacklisted in_pip in_stdlib follow_pip follow_stdlib mn); simpl; [|apply IH; lia].
+    apply IH. rewrite app_length. pose proof (imports_bounded o) as Hb.
+    pose proof (unseen_decreases o seen (origins_in_U _ _ _ Em Eo) Es) as Hd. nia.
+  Qed.
+End Termination.
